@@ -38,6 +38,22 @@ CHECKS = {
         "library parser and an independent CSS Color 3 reference parser (complete, exhaustive:true); quick tier is a bounded sub-domain. format_color's table and make_readable's "
         "format_kept on all three outcome paths are proved by engine A on the real ASTs. Input-class tagging (detect_color_format) is enumerated by engine E (bounded).",
    note=TB + "reference CSS parser in /verif/oracles (cross-checked against tinycss2.color3 each run); str.strip/lower/regex semantics assumed for the input-class dispatch.", ref='§8 C06'),
+ 'C12': dict(cat='proof', tech='contract-based deductive verification: VCs from the real AST of make_readable_bulk over a symbolic-length list (loop invariant + per-iteration obligation), z3',
+   text="for a list of symbolic length with 2-/3-element entries: every iteration appends exactly one element and it is ENTRY(item) from the statement (single-pair API result + label of the returned colour; invalid "
+        "entries kept with a non-readable status), len(results) == len(pairs); ColorPair / make_readable / is_readable enter as function symbols of their arguments. Bounded twin on the real code (engine E).",
+   note=TB + "determinism of the single-pair API (C15); never raises (C14).", ref='§8 C12'),
+ 'C15': dict(cat='proof', tech='modular frame / purity checker over the real ASTs (engine C): computed effects of each function within its declared effect contract, callees by declaration only',
+   text="every function of the core is proved PURE (no module-level mutable state, no argument/self mutation outside constructors, no stateful decorators, no mutable defaults, no set iteration, no reflection, no output, no files); "
+        "purity implies history-, position- and repetition-independence. Threads / separate interpreters follow by implication only (no schedule model) and are exercised by a bounded dynamic twin.",
+   note=TB + "CPython objects thread-safe; effect tables for builtins/stdlib in vf/effects.py; conservative (a complete-key memoiser would be flagged).", ref='§8 C15'),
+ 'C17': dict(cat='proof', tech='frame checker (engine C) + contract-based deductive verification of the guard / result invariance / preview arguments on the real AST of make_readable (engine A, z3)',
+   text="only to_console / to_html_bulk / generate_report (and their callers) may output or write; in make_readable every effectful path satisfies `show or save_report`; the returned tuple is the same function of the optimiser "
+        "result whatever the flags; the preview receives three '#rrggbb' strings from the library's own formatter and nothing in the block raises. Bounded fd-level capture twin (engine E).",
+   note=TB + "rich accepts '#rrggbb' styles; report write succeeds in a writable cwd (assumed, exercised by E).", ref='§8 C17'),
+ 'C19': dict(cat='proof', tech='string-provenance and HTML-context analysis of the real f-string ASTs (engine C) + exhaustive check of html.escape on short strings (engine D) + bounded payload twin (engine E)',
+   text="every hole of every report template is html.escape(...)/safe composite/constant/level badge (levels proved to come from get_wcag_level/None at the call sites) and sits in element text or a double-quoted attribute value; "
+        "html.escape's contract checked on all strings <= 3-4 chars over a metacharacter alphabet; reports generated by the real code under markup payloads keep their parsed structure.",
+   note=TB + "html.escape as documented for all strings; CSS-level injection inside style values is outside the statement.", ref='§8 C19'),
  'C16': dict(cat='other', tech='contract-based deductive verification (clause 1) + bounded run-time relational contract (clause 2)',
    text="clause 1 (mode 2 returns mode 1's result whenever mode 1 succeeds) is proved through the pure function symbol of _strategy_recursive; clause 2 "
         "(very_readable success => plain success) is a relational 2-run property checked only by a bounded run-time contract on generated pairs - not counted as proved.",
@@ -62,6 +78,7 @@ man = {
  'engines': [
    {'name': 'A pyvc', 'path': 'vf/symex.py', 'serves_properties': ['C01', 'C02', 'C04', 'C16'], 'kind_free_text': 'AST -> verification conditions, modular contracts, z3/cvc5'},
    {'name': 'B ringconf', 'path': 'vf/ring.py', 'serves_properties': ['C05', 'C10', 'C11'], 'kind_free_text': 'code == published formula as commutative-ring normal forms over uninterpreted atoms; path matching in z3 QF_LIRA'},
+   {'name': 'C effects', 'path': 'vf/effects.py', 'serves_properties': ['C15', 'C17', 'C19'], 'kind_free_text': 'modular frame/effect checker and HTML provenance analysis over the real ASTs'},
    {'name': 'D fdx', 'path': 'vf/fdx.py', 'serves_properties': ['C01', 'C05', 'C06', 'C11'], 'kind_free_text': 'exhaustive evaluation of the real functions on finite colour domains (16 processes)'},
    {'name': 'E rtc', 'path': 'vf/rtc.py', 'serves_properties': ['C01', 'C02', 'C04', 'C06', 'C16'], 'kind_free_text': 'bounded run-time contracts on the real functions with independent oracles (never counted as proved)'},
  ],
